@@ -81,7 +81,12 @@ Pool ==
      \* one text, operation names that select nothing (each request has its own error)
      Q("query A { a } query B { b }", "Zz", "AI", "-"),                                         \* 48
      Q("query A { a } query B { b }", "Yy", "AJ", "-"),                                         \* 49
-     Q("query A { a } query B { b }", "", "AK", "-")                                            \* 50
+     Q("query A { a } query B { b }", "", "AK", "-"),                                           \* 50
+     \* the same selection under another operation type
+     Q("query { a b }", "", "AL", "-"),                                                         \* 51
+     Q("mutation { a b }", "", "AM", "-"),                                                      \* 52
+     Q("query X { a b }", "X", "AN", "-"),                                                      \* 53
+     Q("mutation X { a b }", "X", "AO", "-")                                                    \* 54
   >>
 
 Schemas == {"s1", "s2"}
